@@ -93,7 +93,7 @@ def tlc_retry(name, *a, **kw):
 
 
 # the largest configurations are checked for the invariants only (liveness is checked on all the others)
-NO_LIVENESS = {"C3", "C3b", "C5s", "C7"}
+NO_LIVENESS = {"C3", "C7"}
 
 
 def run_models_and_mutants(v, names, muts, timeout=1500, pool=4):
@@ -390,7 +390,7 @@ def run(tier, seed):
         for k, shp in enumerate(shapes):
             runs.append(dict(shape=shp, cw=2 + k % 2, execs=5, ops=25, perturb=2 + k % 2, nt=3))
     else:
-        for rep in range(5):
+        for rep in range(6):
             for k, shp in enumerate(shapes):
                 runs.append(dict(shape=shp, cw=2 + (k + rep) % 2, execs=8, ops=35, perturb=2 + (k + rep) % 2, nt=3 + rep % 2,
                                  pp=0 if rep == 3 else 1))
